@@ -158,6 +158,30 @@ func newC12World(c *core.Ctx) *c12World {
 		u := ice.NewUniversalUDPMuxDefault(ice.UniversalUDPMuxParams{Logger: logger, UDPConn: pc, Net: w.host.Net()})
 		w.inner = u.UDPMuxDefault
 		w.mux = u
+		if t.Bias(2, 3, "xorserver") {
+			// the mux has asked one of the remote endpoints for its server-reflexive address (a peer that also
+			// serves STUN on its media port, an ICE-lite server named as the STUN URL): that endpoint's later
+			// answers to the connections are routed like anybody else's
+			xa := t.Choose(len(c12Remotes), "xorserver-addr")
+			c.Knob("xorServer", xa)
+			answered := t.Bias(1, 2, "xorserver-answers")
+			done := make(chan struct{})
+			go func() {
+				defer close(done)
+				_, _ = u.GetXORMappedAddr(net.UDPAddrFromAddrPort(c12Remotes[xa]), 50*time.Millisecond)
+			}()
+			synctest.Wait()
+			w.drainWire()
+			if answered {
+				refl := netip.MustParseAddrPort("198.51.100.7:39999")
+				resp := rig.MsgSpec{Class: stun.ClassSuccessResponse, Method: stun.MethodBinding, Seq: 0xfffffff0, XorAddr: &refl,
+					Integrity: rig.IntAbsent, Fingerprint: rig.FpAbsent}.Build()
+				w.w.Deliver(w.w.Inject(c12Remotes[xa], w.dst(), resp, "c12 stun server"))
+			}
+			<-done
+			synctest.Wait()
+			c.Probe("mux-queried-a-remote-endpoint-as-stun-server")
+		}
 	}
 	c.Defer(func() {
 		// every connection must end (its auto-remove goroutine waits for that), then the mux
@@ -275,10 +299,11 @@ const (
 	c12KNoUser           // STUN without USERNAME
 	c12KNonSTUN          // not a STUN message
 	c12KBadSTUN          // STUN magic cookie but undecodable (length field lies)
+	c12KXorResp          // Binding success response with XOR-MAPPED-ADDRESS, no USERNAME (what every ICE peer and every STUN server answers)
 	c12Kinds
 )
 
-var c12KindName = []string{"user", "user-multi", "swapped", "unknown", "no-username", "non-stun", "bad-stun"}
+var c12KindName = []string{"user", "user-multi", "swapped", "unknown", "no-username", "non-stun", "bad-stun", "xor-response"}
 
 // mkPayload builds a unique payload; u is the local ufrag named (kinds that name one), peer another ufrag index.
 func (w *c12World) mkPayload(kind, u, peer, a int, mapped bool) *c12Pay {
@@ -307,6 +332,10 @@ func (w *c12World) mkPayload(kind, u, peer, a int, mapped bool) *c12Pay {
 	case c12KBadSTUN:
 		p.bytes = req(rig.Str(c12Ufrags[u] + ":" + c12Ufrags[peer]))
 		p.bytes[3] += 4 // declared length exceeds what is there
+	case c12KXorResp:
+		refl := netip.AddrPortFrom(netip.MustParseAddr("198.51.100.7"), uint16(40000+w.uniq%1000))
+		p.bytes = rig.MsgSpec{Class: stun.ClassSuccessResponse, Method: stun.MethodBinding, Seq: w.uniq, XorAddr: &refl,
+			Integrity: rig.IntAbsent, Fingerprint: rig.FpAbsent}.Build()
 	}
 	if p.su >= w.nU {
 		p.su = -1 // names a ufrag nobody uses in this run
@@ -481,7 +510,7 @@ func (w *c12World) describe() string {
 // pickInbound draws an inbound datagram (kind, ufrag named, source address and representation).
 func (w *c12World) pickInbound() *c12Pay {
 	t := w.c.T
-	kind := t.Pick([]int{8, 1, 2, 1, 1, 5, 1}, "inkind")
+	kind := t.Pick([]int{8, 1, 2, 1, 1, 5, 1, 2}, "inkind")
 	u := t.Choose(w.nU+1, "inufrag") // may name a ufrag nobody registered (index nU)
 	if u >= len(c12Ufrags) {
 		u = len(c12Ufrags) - 1
@@ -634,6 +663,36 @@ func c12Sync(s *sched.Sched, f func()) bool {
 		return true
 	default:
 		return false
+	}
+}
+
+// lateReads: the owner of a handle whose reader was told "closed" asks once more, after everything is quiet. A
+// connection that was removed or closed receives nothing - whatever was in flight when it was closed included.
+func (w *c12World) lateReads(run func(func())) {
+	w.mu.Lock()
+	var ended []*c12Handle
+	for _, h := range w.handles {
+		if h != nil && h.conn != nil && len(h.recs) > 0 && h.recs[len(h.recs)-1].err != nil {
+			ended = append(ended, h)
+		}
+	}
+	w.mu.Unlock()
+	for _, h := range ended {
+		var n int
+		var err error
+		returned := false
+		buf := make([]byte, 2048)
+		run(func() {
+			_ = h.conn.SetReadDeadline(time.Now().Add(-time.Second))
+			n, _, err = h.conn.ReadFrom(buf)
+			returned = true
+		})
+		if returned && err == nil {
+			w.c.Failf("C12/closed-connection-received", "h%d had been told that its connection is closed; a later read returned %d bytes (%q): a datagram was queued on the connection after it was removed or closed",
+				h.idx, n, buf[:min(n, 40)])
+			return
+		}
+		w.c.Probe("late-read-of-closed-handle")
 	}
 }
 
@@ -793,6 +852,10 @@ func runC12Conc(c *core.Ctx) {
 	}
 	phaseEnd := w.stamp()
 	w.collect()
+	if c.Failed() {
+		return
+	}
+	w.lateReads(func(f func()) { c12Sync(s, f) })
 	if c.Failed() {
 		return
 	}
